@@ -49,14 +49,6 @@ theorem tie_buildNamedFieldInfo : buildNamedFieldInfoCases =
      "reflect.Map -> elemInfo, err := buildFieldsInfo(mapping.Deref(ft.Elem()), fullName)",
      "default -> finfo, err = buildFieldsInfo(ft, fullName)"] := by decide
 
-/-- `lowerMap`: exact child, else lower-cased child (stored under the lower-cased key), else `mapField` (key kept),
-else nested map with the same info, else the value as is. -/
-theorem tie_toLowerCaseKeyMap : lowerKeyMapShape =
-    ["range m {", "if ok {", "call toLowerCaseInterface", "mapset res", "continue", "}", "call toLowerCase",
-     "if ok {", "call toLowerCaseInterface", "mapset res", "}", "else{", "if info.mapField != nil {",
-     "call toLowerCaseInterface", "mapset res", "}", "else{", "if ok {", "call toLowerCaseKeyMap", "mapset res", "}",
-     "else{", "mapset res", "}", "}", "}", "}", "return"] := by decide
-
 /-- `lowerVal`. -/
 theorem tie_toLowerCaseInterface : lowerInterfaceCases =
     ["map[string]any -> return toLowerCaseKeyMap(vv, info)", "[]any -> var arr []any", "default -> return v"] := by decide
@@ -95,5 +87,373 @@ theorem tie_useNumber : useNumberShape = ["call decoder.UseNumber", "call decode
 /-- `unmarshalJson`. -/
 theorem tie_unmarshalJsonBytes : unmarshalJsonBytesShape =
     ["call jsonx.Unmarshal", "if err != nil {", "return", "}", "call unmarshaler.Unmarshal", "return"] := by decide
+
+/-! ### round 2: the mapping-level entry points, option forwarding, decoder settings, the file-level API -/
+
+/-- `unmarshalWith o`: the options reach `getJsonUnmarshaler`. -/
+theorem tie_mJsonBytes : mJsonBytes =
+    ["return unmarshalJsonBytes(content, v, getJsonUnmarshaler(opts...))",
+  "call unmarshalJsonBytes(content, v, getJsonUnmarshaler(opts...))",
+  "call getJsonUnmarshaler(opts...)"] := by decide
+
+theorem tie_mJsonReader : mJsonReader =
+    ["return unmarshalJsonReader(reader, v, getJsonUnmarshaler(opts...))",
+  "call unmarshalJsonReader(reader, v, getJsonUnmarshaler(opts...))",
+  "call getJsonUnmarshaler(opts...)"] := by decide
+
+theorem tie_mJsonMap : mJsonMap =
+    ["return getJsonUnmarshaler(opts...).Unmarshal(m, v)",
+  "call getJsonUnmarshaler(opts...).Unmarshal(m, v)",
+  "call getJsonUnmarshaler(opts...)"] := by decide
+
+/-- any option ⇒ a fresh unmarshaller built from exactly these options, none ⇒ the default one. -/
+theorem tie_mGetJsonUnmarshaler : mGetJsonUnmarshaler =
+    ["if len(opts) > 0",
+  "call len(opts)",
+  "return NewUnmarshaler(jsonTagKey, opts...)",
+  "call NewUnmarshaler(jsonTagKey, opts...)",
+  "return jsonUnmarshaler"] := by decide
+
+theorem tie_mUnmarshalJsonBytes : mUnmarshalJsonBytes =
+    ["if err != nil",
+  "call jsonx.Unmarshal(content, &m)",
+  "return err",
+  "return unmarshaler.Unmarshal(m, v)",
+  "call unmarshaler.Unmarshal(m, v)"] := by decide
+
+theorem tie_mUnmarshalJsonReader : mUnmarshalJsonReader =
+    ["if err != nil",
+  "call jsonx.UnmarshalFromReader(reader, &m)",
+  "return err",
+  "return unmarshaler.Unmarshal(m, v)",
+  "call unmarshaler.Unmarshal(m, v)"] := by decide
+
+/-- `unmarshalYaml o` = front end, then `UnmarshalJsonBytes(b, v, opts...)` — the options are forwarded. -/
+theorem tie_mYamlBytes : mYamlBytes =
+    ["call encoding.YamlToJson(content)",
+  "if err != nil",
+  "return err",
+  "return UnmarshalJsonBytes(b, v, opts...)",
+  "call UnmarshalJsonBytes(b, v, opts...)"] := by decide
+
+/-- the reader variant reads everything and calls the bytes variant with the same options. -/
+theorem tie_mYamlReader : mYamlReader =
+    ["call io.ReadAll(reader)",
+  "if err != nil",
+  "return err",
+  "return UnmarshalYamlBytes(b, v, opts...)",
+  "call UnmarshalYamlBytes(b, v, opts...)"] := by decide
+
+/-- `unmarshalToml o` = front end, then `UnmarshalJsonBytes(b, v, opts...)` — the options are forwarded (seeded C17-2 dropped them). -/
+theorem tie_mTomlBytes : mTomlBytes =
+    ["call encoding.TomlToJson(content)",
+  "if err != nil",
+  "return err",
+  "return UnmarshalJsonBytes(b, v, opts...)",
+  "call UnmarshalJsonBytes(b, v, opts...)"] := by decide
+
+/-- the reader variant reads everything and calls the bytes variant with the same options. -/
+theorem tie_mTomlReader : mTomlReader =
+    ["call io.ReadAll(r)",
+  "if err != nil",
+  "return err",
+  "return UnmarshalTomlBytes(b, v, opts...)",
+  "call UnmarshalTomlBytes(b, v, opts...)"] := by decide
+
+/-- every option is applied to the unmarshaller's option record. -/
+theorem tie_mNewUnmarshaler : mNewUnmarshaler =
+    ["range opts",
+  "call opt(&unmarshaler.opts)",
+  "return &unmarshaler"] := by decide
+
+theorem tie_mUnmarshal : mUnmarshal =
+    ["return u.unmarshal(i, v, \"\")",
+  "call u.unmarshal(i, v, \"\")"] := by decide
+
+/-- `Opts.fromString`. -/
+theorem tie_optStringValues : optStringValues =
+    ["return func(opt *unmarshalOptions) { opt.fromString = true }",
+  "set opt.fromString = true"] := by decide
+
+/-- `Opts.canon` (with `strings.ToLower`). -/
+theorem tie_optCanonicalKey : optCanonicalKey =
+    ["return func(opt *unmarshalOptions) { opt.canonicalKey = f }",
+  "set opt.canonicalKey = f"] := by decide
+
+/-- `Opts.fromArray`. -/
+theorem tie_optFromArray : optFromArray =
+    ["return func(opt *unmarshalOptions) { opt.fromArray = true }",
+  "set opt.fromArray = true"] := by decide
+
+/-- `Opts.opaqueKeys`. -/
+theorem tie_optOpaqueKeys : optOpaqueKeys =
+    ["return func(opt *unmarshalOptions) { opt.opaqueKeys = true }",
+  "set opt.opaqueKeys = true"] := by decide
+
+/-- `fillDefaults`. -/
+theorem tie_optDefault : optDefault =
+    ["return func(opt *unmarshalOptions) { opt.fillDefault = true }",
+  "set opt.fillDefault = true"] := by decide
+
+/-- `withEnv`: bool by `ParseBool`, the kind of `time.Duration` (int64) by `ParseDuration`, string as is, numbers as `json.Number`. -/
+theorem tie_envValueCases : envValueCases =
+    ["reflect.Bool -> val, err := strconv.ParseBool(envVal)",
+  "durationType.Kind() -> if err := fillDurationValue(fieldType, value, envVal); err != nil { return fmt.Errorf(\"unm",
+  "reflect.String -> value.SetString(envVal)",
+  "default -> return u.processFieldPrimitiveWithJSONNumber(fieldType, value, json.Number(envVal), opts, "] := by decide
+
+/-- `getValue`: opaque ⇒ the key as is, else `strings.FieldsFunc` on the delimiter (`splitDots`). -/
+theorem tie_mReadKeys : mReadKeys =
+    ["if opaque",
+  "return []string{key}",
+  "call cacheKeysLock.Lock()",
+  "call cacheKeysLock.Unlock()",
+  "if ok",
+  "return keys",
+  "call strings.FieldsFunc(key, func(c rune) bool { return c == delimiter })",
+  "return c == delimiter",
+  "call cacheKeysLock.Lock()",
+  "call cacheKeysLock.Unlock()",
+  "return keys"] := by decide
+
+/-- `chainKeys`. -/
+theorem tie_mChainedKeys : mChainedKeys =
+    ["call len(keys)",
+  "return nil, false",
+  "call m.Value(keys[0])",
+  "return v, ok",
+  "if ok",
+  "call m.Value(keys[0])",
+  "if ok",
+  "return getValueWithChainedKeys(recursiveValuer{ current: mapValuer(nextm), parent: m, }, keys[1:])",
+  "call getValueWithChainedKeys(recursiveValuer{ current: mapValuer(nextm), parent: m, }, keys[1:])",
+  "call mapValuer(nextm)",
+  "return nil, false"] := by decide
+
+/-- `jsonx.Unmarshal`: a decoder with `UseNumber`. -/
+theorem tie_xUnmarshal : xUnmarshal =
+    ["call json.NewDecoder(bytes.NewReader(data))",
+  "call bytes.NewReader(data)",
+  "if err != nil",
+  "call unmarshalUseNumber(decoder, v)",
+  "return formatError(string(data), err)",
+  "call formatError(string(data), err)",
+  "call string(data)",
+  "return nil"] := by decide
+
+theorem tie_xUnmarshalFromReader : xUnmarshalFromReader =
+    ["call io.TeeReader(reader, &buf)",
+  "call json.NewDecoder(teeReader)",
+  "if err != nil",
+  "call unmarshalUseNumber(decoder, v)",
+  "return formatError(buf.String(), err)",
+  "call formatError(buf.String(), err)",
+  "call buf.String()",
+  "return nil"] := by decide
+
+theorem tie_xUnmarshalFromString : xUnmarshalFromString =
+    ["call json.NewDecoder(strings.NewReader(str))",
+  "call strings.NewReader(str)",
+  "if err != nil",
+  "call unmarshalUseNumber(decoder, v)",
+  "return formatError(str, err)",
+  "call formatError(str, err)",
+  "return nil"] := by decide
+
+/-- numbers reach the unmarshaller as literals (`json.Number`). -/
+theorem tie_xUseNumber : xUseNumber =
+    ["call decoder.UseNumber()",
+  "return decoder.Decode(v)",
+  "call decoder.Decode(v)"] := by decide
+
+/-- `confLoad`: read, loader by `strings.ToLower(path.Ext(file))`, options applied, `os.ExpandEnv` inside `if opt.env` only. -/
+theorem tie_cLoad : cLoad =
+    ["call os.ReadFile(file)",
+  "if err != nil",
+  "return err",
+  "call strings.ToLower(path.Ext(file))",
+  "call path.Ext(file)",
+  "if !ok",
+  "return fmt.Errorf(\"unrecognized file type: %s\", file)",
+  "call fmt.Errorf(\"unrecognized file type: %s\", file)",
+  "range opts",
+  "call o(&opt)",
+  "if opt.env",
+  "return loader([]byte(os.ExpandEnv(string(content))), v)",
+  "call loader([]byte(os.ExpandEnv(string(content))), v)",
+  "call []byte(os.ExpandEnv(string(content)))",
+  "call os.ExpandEnv(string(content))",
+  "call string(content)",
+  "if err != nil",
+  "call loader(content, v)",
+  "return err",
+  "return validate(v)",
+  "call validate(v)"] := by decide
+
+/-- `LoadConfig` = `Load`. -/
+theorem tie_cLoadConfig : cLoadConfig =
+    ["return Load(file, v, opts...)",
+  "call Load(file, v, opts...)"] := by decide
+
+/-- `MustLoad` = `Load`, fatal on error. -/
+theorem tie_cMustLoad : cMustLoad =
+    ["if err != nil",
+  "call Load(path, v, opts...)",
+  "call log.Fatalf(\"error: config file %s, %s\", path, err.Error())",
+  "call err.Error()"] := by decide
+
+/-- `fillDefaults`: the `WithDefault` unmarshaller on an empty map. -/
+theorem tie_cFillDefault : cFillDefault =
+    ["return fillDefaultUnmarshaler.Unmarshal(map[string]any{}, v)",
+  "call fillDefaultUnmarshaler.Unmarshal(map[string]any{}, v)"] := by decide
+
+/-- `loadTreeWithO`. -/
+theorem tie_cLoadJson : cLoadJson =
+    ["call buildFieldsInfo(reflect.TypeOf(v), \"\")",
+  "call reflect.TypeOf(v)",
+  "if err != nil",
+  "return err",
+  "if err != nil",
+  "call jsonx.Unmarshal(content, &m)",
+  "return err",
+  "call toLowerCaseKeyMap(m, info)",
+  "if err != nil",
+  "call mapping.UnmarshalJsonMap(lowerCaseKeyMap, v, mapping.WithCanonicalKeyFunc(toLowerCase))",
+  "call mapping.WithCanonicalKeyFunc(toLowerCase)",
+  "return err",
+  "return validate(v)",
+  "call validate(v)"] := by decide
+
+theorem tie_cLoadYaml : cLoadYaml =
+    ["call encoding.YamlToJson(content)",
+  "if err != nil",
+  "return err",
+  "return LoadFromJsonBytes(b, v)",
+  "call LoadFromJsonBytes(b, v)"] := by decide
+
+theorem tie_cLoadToml : cLoadToml =
+    ["call encoding.TomlToJson(content)",
+  "if err != nil",
+  "return err",
+  "return LoadFromJsonBytes(b, v)",
+  "call LoadFromJsonBytes(b, v)"] := by decide
+
+/-- `UseEnv` sets `env`. -/
+theorem tie_cUseEnv : cUseEnv =
+    ["return func(opt *options) { opt.env = true }",
+  "set opt.env = true"] := by decide
+
+/-- `loaderOf`. -/
+theorem tie_cLoaders : cLoaders =
+    ["\".json\" -> LoadFromJsonBytes",
+  "\".toml\" -> LoadFromTomlBytes",
+  "\".yaml\" -> LoadFromYamlBytes",
+  "\".yml\" -> LoadFromYamlBytes"] := by decide
+
+theorem tie_eConvertKey : eConvertKey =
+    ["call make(map[string]any)",
+  "range in",
+  "call lang.Repr(k)",
+  "call toStringKeyMap(v)",
+  "return res"] := by decide
+
+theorem tie_eConvertNumber : eConvertNumber =
+    ["return json.Number(lang.Repr(in))",
+  "call json.Number(lang.Repr(in))",
+  "call lang.Repr(in)"] := by decide
+
+theorem tie_eConvertSlice : eConvertSlice =
+    ["call make([]any, len(in))",
+  "call len(in)",
+  "range in",
+  "call toStringKeyMap(v)",
+  "return res"] := by decide
+
+theorem tie_eEncodeToJSON : eEncodeToJSON =
+    ["if err != nil",
+  "call json.NewEncoder(&buf).Encode(val)",
+  "call json.NewEncoder(&buf)",
+  "return nil, err",
+  "return buf.Bytes(), nil",
+  "call buf.Bytes()"] := by decide
+
+/-- `lowerMap`: exact child, else lower-cased child (stored under the lower-cased key), else `mapField` (key kept),
+else nested map with the same info, else the value as is.  Two accepted forms: the pinned one ranges over the Go map
+(nondeterministic for keys that collide up to case: `pinned_collision_order_dependent`), the fixed one
+(fixes/C17-case-collision-deterministic.patch) collects the keys, sorts them and walks them in ascending order
+(`sortDoc` + `lowerMap`). -/
+theorem tie_toLowerCaseKeyMap : lowerKeyMapShape =
+    ["range m {",
+  "if ok {",
+  "call toLowerCaseInterface",
+  "mapset res",
+  "continue",
+  "}",
+  "call toLowerCase",
+  "if ok {",
+  "call toLowerCaseInterface",
+  "mapset res",
+  "}",
+  "else{",
+  "if info.mapField != nil {",
+  "call toLowerCaseInterface",
+  "mapset res",
+  "}",
+  "else{",
+  "if ok {",
+  "call toLowerCaseKeyMap",
+  "mapset res",
+  "}",
+  "else{",
+  "mapset res",
+  "}",
+  "}",
+  "}",
+  "}",
+  "return"] ∨ lowerKeyMapShape =
+    ["range m {",
+  "}",
+  "call sort.Strings",
+  "range keys {",
+  "if ok {",
+  "call toLowerCaseInterface",
+  "mapset res",
+  "continue",
+  "}",
+  "call toLowerCase",
+  "if ok {",
+  "call toLowerCaseInterface",
+  "mapset res",
+  "}",
+  "else{",
+  "if info.mapField != nil {",
+  "call toLowerCaseInterface",
+  "mapset res",
+  "}",
+  "else{",
+  "if ok {",
+  "call toLowerCaseKeyMap",
+  "mapset res",
+  "}",
+  "else{",
+  "mapset res",
+  "}",
+  "}",
+  "}",
+  "}",
+  "return"] := by
+  first | exact Or.inl (by decide) | exact Or.inr (by decide)
+
+/-- `fillPrim`: integers through `setValueFromString`, float64 through `json.Number.Float64`; float32 either through
+`Float64` (pinned: two roundings, `Opts.f32Pinned`) or `strconv.ParseFloat(…, 32)` (fixes/C17-float32-single-rounding.patch). -/
+theorem tie_jsonNumberCases : jsonNumberCases.drop 1 =
+    ["reflect.Float32 -> fValue, err := v.Float64()",
+     "reflect.Float64 -> fValue, err := v.Float64()",
+     "default -> return newTypeMismatchErrorWithHint(fullName, typeKind.String(), numberTypeString)"] ∨
+    jsonNumberCases.drop 1 =
+    ["reflect.Float32 -> fValue, err := strconv.ParseFloat(v.String(), 32)",
+     "reflect.Float64 -> fValue, err := v.Float64()",
+     "default -> return newTypeMismatchErrorWithHint(fullName, typeKind.String(), numberTypeString)"] := by
+  first | exact Or.inl (by decide) | exact Or.inr (by decide)
 
 end GoZero.C17.Tie
